@@ -356,6 +356,16 @@ def generate(repo):
         rtable.append('Kind { magic: %s, name: "%s", fixed: %s, tail: %s }' % (magic, var, rust_fields(fs), rt))
         info[var] = len(fs)
     coq.append('')
+    # (kind, [(field path, Rust type name of the enum / bitflags it uses)]) incl. the element fields of a counted tail ("tail." prefix)
+    ftypes = []
+    for magic, var, st in variants:
+        if st in HAND_PACKETS: continue
+        fs, tail = g.struct_layout(st)
+        ent = [(n, a[2]) for n, a in fs if a[0] == 'enum'] + [(n, a[3]) for n, a in fs if a[0] == 'flags']
+        if tail[0] == 'vec':
+            ent += [('tail.' + n, a[2]) for n, a in tail[1] if a[0] == 'enum'] + [('tail.' + n, a[3]) for n, a in tail[1] if a[0] == 'flags']
+        ftypes.append('("%s"%%string, [%s])' % (var, '; '.join('("%s"%%string, "%s"%%string)' % e for e in ent)))
+    coq.append('Definition field_types : list (string * list (string * string)) := [\n  ' + ';\n  '.join(ftypes) + '].')
     coq.append('Inductive pkind := KLayout (l : layout) | KMso.')
     coq.append('Definition packet_table : list (N * string * pkind) := [\n  ' + ';\n  '.join(table) + '].')
     # enum / flag tables (for C02 and the customs)
